@@ -219,6 +219,7 @@ def execute(plan):
             log.violation('get_value-misses-binding', {'at': tag, 'variable': i, 'engine': TM.show(got_all[i]), 'model': TM.show(want_all[i])})
             return False
         for i, v in enumerate(pool.vars):
+            core.progress()
             mt = TM.resolve(('v', i), s)
             if not TM.py_defined(mt):
                 log.count('skipped_partial_list')       # to_python is documented for proper lists only
@@ -233,6 +234,7 @@ def execute(plan):
                 log.violation('to_python-misses-binding', {'at': tag, 'variable': i, 'engine': pyj(got), 'model': pyj(want)})
                 return False
         for n, (val, py, desc) in enumerate(saved):
+            core.progress()
             if raw_has_variable(val):
                 log.violation('saved-value-contains-variable', {'at': tag, 'saved': desc, 'denoted_at_save': pyj(py)})
                 return False
